@@ -2,12 +2,15 @@ import EosProofs.Lemmas.MicroLegal
 /-! Tear-down at message level (property C11, implementation layer).
 
 The registers of the calculation service (`AffectionRegister`, `ProjectionRegister`) are modelled by their
-declarative content: the loaded flags, running-effect flags and recorded projection targets of `Micro.Dyn`,
-from which `allSpecs`, `affectees`, `rdeps` … are *derived*.  "No register retains an entry" therefore reads:
-the flags of every configured item are off, hence every derived list is empty.
+declarative content: the loaded flags, running-effect flags, recorded projection targets and registered
+warfare-buff modifiers (`__warfare_buffs`) of `Micro.Dyn`, from which `allSpecs`, `affectees`, `rdeps` … are
+*derived*.  "No register retains an entry" therefore reads: the flags of every configured item are off and
+nothing is recorded or registered for it, hence every derived list is empty.
 
 `teardown i es s` is the canonical message sequence that removes item `i`: `EffectUnapplied` for every
-effect with recorded targets, `EffectsStopped` for the running effects, `ItemUnloaded`. -/
+effect with recorded targets, the drop of the registered warfare-buff modifiers of its boost effects
+(`buffset … []`, which the service does inside its `EffectsStopped` handler), `EffectsStopped` for the running
+effects, `ItemUnloaded`. -/
 namespace Eos.Cascade
 variable {N V : Type} [DecidableEq N]
 
@@ -129,6 +132,7 @@ theorem mstep_sub (s : MState) (st : MStep) : Cascade.Sub s.cache (mstep u s st)
     show Cascade.Sub s.cache (casc u s.cfg s.dyn (fuelOf u) s.cache (i, attr))
     rw [(casc_visit_eq u s.cfg s.dyn (fuelOf u)).1]
     exact (Cascade.casc_visit_sub _ _).1 _ _
+  | buffset i e ms => exact Cascade.Sub.refl _
   | reconfig cfg' => exact Cascade.Sub.refl _
 
 theorem sub_none {K K' : Cache} (h : Cascade.Sub K K') {n : Node} (hn : K n = none) : K' n = none := by
@@ -141,26 +145,25 @@ theorem sub_none {K K' : Cache} (h : Cascade.Sub K K') {n : Node} (hn : K n = no
 /-- The canonical tear-down of item `i`; `es` lists the effect ids that may be running or applied. -/
 def teardown (i : Nat) (es : List Int) (s : MState) : List MStep :=
   ((es.filter fun e => !(s.dyn.tgts i e).isEmpty).map fun e => .unapply i e (s.dyn.tgts i e)) ++
-    [.stop i (es.filter fun e => s.dyn.on i e), .unload i]
+    (((es.filter fun e => !(s.dyn.bspecs i e).isEmpty).map fun e => .buffset i e []) ++
+      [.stop i (es.filter fun e => s.dyn.on i e), .unload i])
 
 /-- `es` covers what the registers hold for item `i`. -/
 def Covers (d : Dyn) (i : Nat) (es : List Int) : Prop :=
-  ∀ e, d.on i e = true ∨ d.tgts i e ≠ [] → e ∈ es
+  ∀ e, d.on i e = true ∨ d.tgts i e ≠ [] ∨ d.bspecs i e ≠ [] → e ∈ es
 
-/-- State `s'` is `s` with item `i` torn down: its flags are off, nothing of it is cached; the flags of the
-other items are untouched and the cache has only lost entries. -/
+/-- State `s'` is `s` with item `i` torn down: its flags are off, nothing is recorded or registered for it,
+nothing of it is cached; the registers of the other items are untouched and the cache has only lost entries. -/
 structure TornDown (i : Nat) (s s' : MState) : Prop where
   cfg : s'.cfg = s.cfg
   loaded : s'.dyn.loaded i = false
   on : ∀ e, s'.dyn.on i e = false
   tgts : ∀ e, s'.dyn.tgts i e = []
+  bspecs : ∀ e, s'.dyn.bspecs i e = []
   cache : ∀ n, n.1 = i → s'.cache n = none
   other : ∀ j, j ≠ i → s'.dyn.loaded j = s.dyn.loaded j ∧
-    ∀ e, s'.dyn.on j e = s.dyn.on j e ∧ s'.dyn.tgts j e = s.dyn.tgts j e
+    ∀ e, s'.dyn.on j e = s.dyn.on j e ∧ s'.dyn.tgts j e = s.dyn.tgts j e ∧ s'.dyn.bspecs j e = s.dyn.bspecs j e
   sub : Cascade.Sub s.cache s'.cache
-
-theorem filter_not_contains_self (ts : List Nat) : (ts.filter fun t => !ts.contains t) = [] :=
-  List.filter_eq_nil_iff.2 (fun t ht => by simp [ht])
 
 /-- The `EffectUnapplied` phase: registers other than `tgts i` are untouched, and `tgts i e` is emptied for
 every listed `e`. -/
@@ -169,13 +172,16 @@ theorem unapply_phase (i : Nat) (T : Int → List Nat) : ∀ (l : List Int) (s :
     (mrun u s (l.map fun e => .unapply i e (T e))).cfg = s.cfg ∧
     (mrun u s (l.map fun e => .unapply i e (T e))).dyn.loaded = s.dyn.loaded ∧
     (mrun u s (l.map fun e => .unapply i e (T e))).dyn.on = s.dyn.on ∧
+    (mrun u s (l.map fun e => .unapply i e (T e))).dyn.bspecs = s.dyn.bspecs ∧
     (∀ j, j ≠ i → ∀ e, (mrun u s (l.map fun e => .unapply i e (T e))).dyn.tgts j e = s.dyn.tgts j e) ∧
     (∀ e, (mrun u s (l.map fun e => .unapply i e (T e))).dyn.tgts i e = [] ∨
       (e ∉ l ∧ (mrun u s (l.map fun e => .unapply i e (T e))).dyn.tgts i e = s.dyn.tgts i e)) ∧
     Cascade.Sub s.cache (mrun u s (l.map fun e => .unapply i e (T e))).cache := by
   intro l
   induction l with
-  | nil => intro s _; exact ⟨rfl, rfl, rfl, fun _ _ _ => rfl, fun e => Or.inr ⟨List.not_mem_nil, rfl⟩, Cascade.Sub.refl _⟩
+  | nil =>
+    intro s _
+    exact ⟨rfl, rfl, rfl, rfl, fun _ _ _ => rfl, fun e => Or.inr ⟨List.not_mem_nil, rfl⟩, Cascade.Sub.refl _⟩
   | cons e0 l ih =>
     intro s hT
     have htg : ∀ j f, (mstep u s (.unapply i e0 (T e0))).dyn.tgts j f =
@@ -192,9 +198,9 @@ theorem unapply_phase (i : Nat) (T : Int → List Nat) : ∀ (l : List Int) (s :
       by_cases he : e = e0
       · subst he; exact Or.inr h0
       · rw [htg, if_neg (fun h => he h.2)]; exact hT e
-    obtain ⟨c, lo, on, ot, tg, sb⟩ := ih (mstep u s (.unapply i e0 (T e0))) hT'
+    obtain ⟨c, lo, on, bs, ot, tg, sb⟩ := ih (mstep u s (.unapply i e0 (T e0))) hT'
     simp only [List.map_cons, mrun]
-    refine ⟨c, lo, on, fun j hj e => ?_, fun e => ?_, (mstep_sub s _).trans sb⟩
+    refine ⟨c, lo, on, bs, fun j hj e => ?_, fun e => ?_, (mstep_sub s _).trans sb⟩
     · rw [ot j hj e, htg, if_neg (fun h => hj h.1)]
     · rcases tg e with h | ⟨hn, h⟩
       · exact Or.inl h
@@ -206,33 +212,103 @@ theorem unapply_phase (i : Nat) (T : Int → List Nat) : ∀ (l : List Int) (s :
             · exact hn hm
           · rw [h, htg, if_neg (fun hh => he hh.2)]
 
-/-- **(1)** After the canonical tear-down of item `i` its loaded flag, running-effect flags and recorded
-targets are all off, no cache entry of `i` remains, and nothing of the other items' registers changed. -/
-theorem teardown_tornDown (i : Nat) (es : List Int) (s : MState) (hcov : Covers s.dyn i es) :
-    TornDown i s (mrun u s (teardown i es s)) := by
-  obtain ⟨c, lo, on, ot, tg, sb⟩ := unapply_phase (u := u) i (s.dyn.tgts i)
+/-- The phase that drops registered warfare-buff modifiers: only `bspecs i` changes, and it is emptied for
+every listed `e`. -/
+theorem buffclear_phase (i : Nat) : ∀ (l : List Int) (s : MState),
+    (mrun u s (l.map fun e => .buffset i e [])).cfg = s.cfg ∧
+    (mrun u s (l.map fun e => .buffset i e [])).dyn.loaded = s.dyn.loaded ∧
+    (mrun u s (l.map fun e => .buffset i e [])).dyn.on = s.dyn.on ∧
+    (mrun u s (l.map fun e => .buffset i e [])).dyn.tgts = s.dyn.tgts ∧
+    (mrun u s (l.map fun e => .buffset i e [])).cache = s.cache ∧
+    (∀ j, j ≠ i → ∀ e, (mrun u s (l.map fun e => .buffset i e [])).dyn.bspecs j e = s.dyn.bspecs j e) ∧
+    (∀ e, (e ∈ l → (mrun u s (l.map fun e => .buffset i e [])).dyn.bspecs i e = []) ∧
+      (e ∉ l → (mrun u s (l.map fun e => .buffset i e [])).dyn.bspecs i e = s.dyn.bspecs i e)) := by
+  intro l
+  induction l with
+  | nil => intro s; exact ⟨rfl, rfl, rfl, rfl, rfl, fun _ _ _ => rfl, fun e => ⟨fun h => (by cases h), fun _ => rfl⟩⟩
+  | cons e0 l ih =>
+    intro s
+    have hbs : ∀ j f, (mstep u s (.buffset i e0 [])).dyn.bspecs j f =
+        if j = i ∧ f = e0 then [] else s.dyn.bspecs j f := fun _ _ => rfl
+    obtain ⟨c, lo, on, tg, ca, ot, bs⟩ := ih (mstep u s (.buffset i e0 []))
+    simp only [List.map_cons, mrun]
+    refine ⟨c, lo, on, tg, ca, fun j hj e => ?_, fun e => ⟨fun he => ?_, fun he => ?_⟩⟩
+    · rw [ot j hj e, hbs, if_neg (fun h => hj h.1)]
+    · by_cases hl : e ∈ l
+      · exact (bs e).1 hl
+      · have he0 : e = e0 := by
+          rcases List.mem_cons.1 he with h | h
+          · exact h
+          · exact absurd h hl
+        rw [(bs e).2 hl, hbs, if_pos ⟨rfl, he0⟩]
+    · have hl : e ∉ l := fun h => he (List.mem_cons_of_mem _ h)
+      have he0 : e ≠ e0 := fun h => he (h ▸ List.mem_cons_self)
+      rw [(bs e).2 hl, hbs, if_neg (fun h => he0 h.2)]
+
+/-- The state after the `EffectUnapplied` phase and the drop of the warfare-buff modifiers: nothing is recorded
+or registered for `i` any more; flags and the other items' registers are untouched. -/
+theorem teardown_pre (i : Nat) (es : List Int) (s : MState) (hcov : Covers s.dyn i es) :
+    let s1 := mrun u s ((es.filter fun e => !(s.dyn.tgts i e).isEmpty).map fun e => .unapply i e (s.dyn.tgts i e))
+    let s2 := mrun u s1 ((es.filter fun e => !(s.dyn.bspecs i e).isEmpty).map fun e => .buffset i e [])
+    (∀ e, s1.dyn.tgts i e = []) ∧
+    s2.cfg = s.cfg ∧ s2.dyn.loaded = s.dyn.loaded ∧ s2.dyn.on = s.dyn.on ∧
+    (∀ e, s2.dyn.tgts i e = []) ∧ (∀ e, s2.dyn.bspecs i e = []) ∧
+    (∀ j, j ≠ i → ∀ e, s2.dyn.tgts j e = s.dyn.tgts j e ∧ s2.dyn.bspecs j e = s.dyn.bspecs j e) ∧
+    Cascade.Sub s.cache s2.cache := by
+  intro s1 s2
+  obtain ⟨c, lo, on, bs, ot, tg, sb⟩ := unapply_phase (u := u) i (s.dyn.tgts i)
     (es.filter fun e => !(s.dyn.tgts i e).isEmpty) s (fun _ => Or.inl rfl)
-  have htg0 : ∀ e, (mrun u s ((es.filter fun e => !(s.dyn.tgts i e).isEmpty).map
-      fun e => .unapply i e (s.dyn.tgts i e))).dyn.tgts i e = [] := by
+  have htg0 : ∀ e, s1.dyn.tgts i e = [] := by
     intro e
     rcases tg e with h | ⟨hn, h⟩
     · exact h
-    · rw [h]
+    · show (mrun u s _).dyn.tgts i e = []
+      rw [h]
       cases hl : s.dyn.tgts i e with
       | nil => rfl
       | cons t ts =>
-        exact absurd (List.mem_filter.2 ⟨hcov e (Or.inr (by rw [hl]; exact List.cons_ne_nil _ _)), by simp [hl]⟩) hn
+        exact absurd (List.mem_filter.2 ⟨hcov e (Or.inr (Or.inl (by rw [hl]; exact List.cons_ne_nil _ _))),
+          by simp [hl]⟩) hn
+  obtain ⟨c2, lo2, on2, tg2, ca2, ot2, bs2⟩ := buffclear_phase (u := u) i
+    (es.filter fun e => !(s.dyn.bspecs i e).isEmpty) s1
+  refine ⟨htg0, c2.trans c, lo2.trans lo, on2.trans on, fun e => ?_, fun e => ?_, fun j hj e => ⟨?_, ?_⟩, ?_⟩
+  · show s2.dyn.tgts i e = []
+    rw [show s2.dyn.tgts = s1.dyn.tgts from tg2]; exact htg0 e
+  · by_cases he : e ∈ es.filter fun e => !(s.dyn.bspecs i e).isEmpty
+    · exact (bs2 e).1 he
+    · show s2.dyn.bspecs i e = []
+      rw [(bs2 e).2 he, show s1.dyn.bspecs = s.dyn.bspecs from bs]
+      cases hl : s.dyn.bspecs i e with
+      | nil => rfl
+      | cons m ms =>
+        exact absurd (List.mem_filter.2 ⟨hcov e (Or.inr (Or.inr (by rw [hl]; exact List.cons_ne_nil _ _))),
+          by simp [hl]⟩) he
+  · show s2.dyn.tgts j e = _
+    rw [show s2.dyn.tgts = s1.dyn.tgts from tg2]; exact ot j hj e
+  · show s2.dyn.bspecs j e = _
+    rw [ot2 j hj e, show s1.dyn.bspecs = s.dyn.bspecs from bs]
+  · show Cascade.Sub s.cache s2.cache
+    rw [show s2.cache = s1.cache from ca2]; exact sb
+
+/-- **(1)** After the canonical tear-down of item `i` its loaded flag, running-effect flags, recorded
+targets and registered warfare-buff modifiers are all gone, no cache entry of `i` remains, and nothing of the
+other items' registers changed. -/
+theorem teardown_tornDown (i : Nat) (es : List Int) (s : MState) (hcov : Covers s.dyn i es) :
+    TornDown i s (mrun u s (teardown i es s)) := by
+  obtain ⟨_, c, lo, on, tg0, bs0, ot, sb⟩ := teardown_pre (u := u) i es s hcov
   unfold teardown
-  rw [mrun_append]
-  generalize hs1 : mrun u s ((es.filter fun e => !(s.dyn.tgts i e).isEmpty).map
-      fun e => .unapply i e (s.dyn.tgts i e)) = s1 at c lo on ot sb htg0
-  show TornDown i s (mstep u (mstep u s1 (.stop i (es.filter fun e => s.dyn.on i e))) (.unload i))
-  have sb2 := (sb.trans (mstep_sub (u := u) s1 (.stop i (es.filter fun e => s.dyn.on i e)))).trans
+  rw [mrun_append, mrun_append]
+  generalize mrun u (mrun u s ((es.filter fun e => !(s.dyn.tgts i e).isEmpty).map
+      fun e => .unapply i e (s.dyn.tgts i e))) ((es.filter fun e => !(s.dyn.bspecs i e).isEmpty).map
+      fun e => .buffset i e []) = s2 at c lo on tg0 bs0 ot sb
+  show TornDown i s (mstep u (mstep u s2 (.stop i (es.filter fun e => s.dyn.on i e))) (.unload i))
+  have sb2 := (sb.trans (mstep_sub (u := u) s2 (.stop i (es.filter fun e => s.dyn.on i e)))).trans
     (mstep_sub (u := u) _ (.unload i))
-  refine ⟨c, ?_, fun e => ?_, fun e => htg0 e, fun n hn => ?_, fun j hj => ⟨?_, fun e => ⟨?_, ot j hj e⟩⟩, sb2⟩
+  refine ⟨c, ?_, fun e => ?_, fun e => tg0 e, fun e => bs0 e, fun n hn => ?_,
+    fun j hj => ⟨?_, fun e => ⟨?_, (ot j hj e).1, (ot j hj e).2⟩⟩, sb2⟩
   · show (if i = i then false else _) = false
     rw [if_pos rfl]
-  · show (if i = i ∧ e ∈ (es.filter fun e => s.dyn.on i e) then false else s1.dyn.on i e) = false
+  · show (if i = i ∧ e ∈ (es.filter fun e => s.dyn.on i e) then false else s2.dyn.on i e) = false
     by_cases he : i = i ∧ e ∈ es.filter fun e => s.dyn.on i e
     · rw [if_pos he]
     · rw [if_neg he, on]
@@ -241,9 +317,9 @@ theorem teardown_tornDown (i : Nat) (es : List Int) (s : MState) (hcov : Covers 
       | true => exact absurd ⟨rfl, List.mem_filter.2 ⟨hcov e (Or.inl ho), ho⟩⟩ he
   · show (if n.1 = i then none else _) = none
     rw [if_pos hn]
-  · show (if j = i then false else s1.dyn.loaded j) = s.dyn.loaded j
+  · show (if j = i then false else s2.dyn.loaded j) = s.dyn.loaded j
     rw [if_neg hj, lo]
-  · show (if j = i ∧ e ∈ (es.filter fun e => s.dyn.on i e) then false else s1.dyn.on j e) = s.dyn.on j e
+  · show (if j = i ∧ e ∈ (es.filter fun e => s.dyn.on i e) then false else s2.dyn.on j e) = s.dyn.on j e
     rw [if_neg (fun h => hj h.1), on]
 
 /-- **(3)** Every message of the tear-down is taken under its side conditions (`StepOK`), provided no
@@ -251,21 +327,10 @@ theorem teardown_tornDown (i : Nat) (es : List Int) (s : MState) (hcov : Covers 
 theorem teardown_stepOK (W : Config × Dyn → Graph Node Rat) (i : Nat) (es : List Int) (s : MState)
     (hcov : Covers s.dyn i es) (hK1 : ∀ a, a ≠ i → ∀ e, i ∉ s.dyn.tgts a e) :
     MRunOK u (StepOK W) s (teardown i es s) := by
-  obtain ⟨c, lo, on, ot, tg, sb⟩ := unapply_phase (u := u) i (s.dyn.tgts i)
-    (es.filter fun e => !(s.dyn.tgts i e).isEmpty) s (fun _ => Or.inl rfl)
-  have htg0 : ∀ e, (mrun u s ((es.filter fun e => !(s.dyn.tgts i e).isEmpty).map
-      fun e => .unapply i e (s.dyn.tgts i e))).dyn.tgts i e = [] := by
-    intro e
-    rcases tg e with h | ⟨hn, h⟩
-    · exact h
-    · rw [h]
-      cases hl : s.dyn.tgts i e with
-      | nil => rfl
-      | cons t ts =>
-        exact absurd (List.mem_filter.2 ⟨hcov e (Or.inr (by rw [hl]; exact List.cons_ne_nil _ _)), by simp [hl]⟩) hn
+  obtain ⟨htg1, c, lo, on, tg0, bs0, ot, sb⟩ := teardown_pre (u := u) i es s hcov
   unfold teardown
-  rw [mrunOK_append]
-  constructor
+  rw [mrunOK_append, mrunOK_append]
+  refine ⟨?_, ?_, ?_⟩
   · -- `EffectUnapplied` has no side condition
     have : ∀ (l : List Int) (s0 : MState), MRunOK u (StepOK W) s0 (l.map fun e => .unapply i e (s.dyn.tgts i e)) := by
       intro l
@@ -273,20 +338,29 @@ theorem teardown_stepOK (W : Config × Dyn → Graph Node Rat) (i : Nat) (es : L
       | nil => intro _; trivial
       | cons e l ih => intro s0; exact ⟨trivial, ih _⟩
     exact this _ s
-  · generalize hs1 : mrun u s ((es.filter fun e => !(s.dyn.tgts i e).isEmpty).map
-        fun e => .unapply i e (s.dyn.tgts i e)) = s1 at c lo on ot sb htg0
-    refine ⟨fun e _ => htg0 e, ⟨fun e => ?_, fun a e => ?_⟩, trivial⟩
-    · show (if i = i ∧ e ∈ (es.filter fun e => s.dyn.on i e) then false else s1.dyn.on i e) = false
+  · -- the modifiers are dropped when nothing is recorded for `i` any more
+    have : ∀ (l : List Int) (s0 : MState), (∀ e, s0.dyn.tgts i e = []) →
+        MRunOK u (StepOK W) s0 (l.map fun e => .buffset i e []) := by
+      intro l
+      induction l with
+      | nil => intro _ _; trivial
+      | cons e l ih => intro s0 h0; exact ⟨h0 e, ih _ h0⟩
+    exact this _ _ htg1
+  · generalize mrun u (mrun u s ((es.filter fun e => !(s.dyn.tgts i e).isEmpty).map
+        fun e => .unapply i e (s.dyn.tgts i e))) ((es.filter fun e => !(s.dyn.bspecs i e).isEmpty).map
+        fun e => .buffset i e []) = s2 at c lo on tg0 bs0 ot sb
+    refine ⟨fun e _ => tg0 e, ⟨fun e => ?_, fun a e => ?_⟩, trivial⟩
+    · show (if i = i ∧ e ∈ (es.filter fun e => s.dyn.on i e) then false else s2.dyn.on i e) = false
       by_cases he : i = i ∧ e ∈ es.filter fun e => s.dyn.on i e
       · rw [if_pos he]
       · rw [if_neg he, on]
         cases ho : s.dyn.on i e with
         | false => rfl
         | true => exact absurd ⟨rfl, List.mem_filter.2 ⟨hcov e (Or.inl ho), ho⟩⟩ he
-    · show i ∉ s1.dyn.tgts a e
+    · show i ∉ s2.dyn.tgts a e
       by_cases ha : a = i
-      · rw [ha, htg0]; exact List.not_mem_nil
-      · rw [ot a ha e]; exact hK1 a ha e
+      · rw [ha, tg0]; exact List.not_mem_nil
+      · rw [(ot a ha e).1]; exact hK1 a ha e
 
 /-! ## The invariant along a run -/
 
@@ -311,9 +385,10 @@ def teardownAll (u : Universe) (es : List Int) : List Nat → MState → List MS
   | i :: rest, s => teardown i es s ++ teardownAll u es rest (mrun u s (teardown i es s))
 
 /-- The registers hold nothing for the configured items: the declarative content of the affection and
-projection registers (affectee items, running effects / affector specs, projectors and their targets). -/
+projection registers (affectee items, running effects / affector specs, projectors and their targets) and of
+the warfare-buff register. -/
 def DynEmptyOn (cfg : Config) (d : Dyn) : Prop :=
-  ∀ x ∈ cfg.items, d.loaded x.id = false ∧ ∀ e, d.on x.id e = false ∧ d.tgts x.id e = []
+  ∀ x ∈ cfg.items, d.loaded x.id = false ∧ ∀ e, d.on x.id e = false ∧ d.tgts x.id e = [] ∧ d.bspecs x.id e = []
 
 /-- Projectors let go of their targets first: whenever `i` is a recorded target of `a`, `a` is `i` itself or
 is torn down before `i` (`done` = items already torn down). -/
@@ -326,11 +401,12 @@ theorem covers_of_tornDown {i : Nat} {s s' : MState} (h : TornDown i s s') {es :
   intro j e he
   by_cases hj : j = i
   · subst hj
-    rcases he with he | he
+    rcases he with he | he | he
     · rw [h.on] at he; cases he
     · exact absurd (h.tgts e) he
+    · exact absurd (h.bspecs e) he
   · obtain ⟨_, h2⟩ := h.other j hj
-    rw [(h2 e).1, (h2 e).2] at he
+    rw [(h2 e).1, (h2 e).2.1, (h2 e).2.2] at he
     exact hc j e he
 
 /-- What the tear-down of the items `order` achieves, with the bookkeeping needed for the induction. -/
@@ -341,21 +417,26 @@ theorem teardownAll_spec (es : List Int) : ∀ (order : List Nat) (s : MState), 
     (∀ j e, (mrun u s (teardownAll u es order s)).dyn.on j e = true → s.dyn.on j e = true) ∧
     (∀ j e, (mrun u s (teardownAll u es order s)).dyn.tgts j e = s.dyn.tgts j e ∨
       (mrun u s (teardownAll u es order s)).dyn.tgts j e = []) ∧
+    (∀ j e, (mrun u s (teardownAll u es order s)).dyn.bspecs j e = s.dyn.bspecs j e ∨
+      (mrun u s (teardownAll u es order s)).dyn.bspecs j e = []) ∧
     ∀ i ∈ order, (mrun u s (teardownAll u es order s)).dyn.loaded i = false ∧
       (∀ e, (mrun u s (teardownAll u es order s)).dyn.on i e = false ∧
-        (mrun u s (teardownAll u es order s)).dyn.tgts i e = []) ∧
+        (mrun u s (teardownAll u es order s)).dyn.tgts i e = [] ∧
+        (mrun u s (teardownAll u es order s)).dyn.bspecs i e = []) ∧
       ∀ n, n.1 = i → (mrun u s (teardownAll u es order s)).cache n = none := by
   intro order
   induction order with
   | nil =>
     intro s _
-    exact ⟨rfl, Cascade.Sub.refl _, fun _ h => h, fun _ _ h => h, fun _ _ => Or.inl rfl, fun _ h => by cases h⟩
+    exact ⟨rfl, Cascade.Sub.refl _, fun _ h => h, fun _ _ h => h, fun _ _ => Or.inl rfl, fun _ _ => Or.inl rfl,
+      fun _ h => by cases h⟩
   | cons i rest ih =>
     intro s hc
     have td := teardown_tornDown (u := u) i es s (hc i)
-    obtain ⟨c, sb, lo, on, tg, emp⟩ := ih (mrun u s (teardown i es s)) (covers_of_tornDown td hc)
+    obtain ⟨c, sb, lo, on, tg, bs, emp⟩ := ih (mrun u s (teardown i es s)) (covers_of_tornDown td hc)
     simp only [teardownAll, mrun_append]
-    refine ⟨c.trans td.cfg, td.sub.trans sb, fun j h => ?_, fun j e h => ?_, fun j e => ?_, fun k hk => ?_⟩
+    refine ⟨c.trans td.cfg, td.sub.trans sb, fun j h => ?_, fun j e h => ?_, fun j e => ?_, fun j e => ?_,
+      fun k hk => ?_⟩
     · by_cases hj : j = i
       · have := lo j h; rw [hj, td.loaded] at this; cases this
       · rw [← (td.other j hj).1]; exact lo j h
@@ -366,9 +447,14 @@ theorem teardownAll_spec (es : List Int) : ∀ (order : List Nat) (s : MState), 
       · rcases tg j e with h | h
         · right; rw [h, hj, td.tgts]
         · exact Or.inr h
-      · rw [← ((td.other j hj).2 e).2]; exact tg j e
+      · rw [← ((td.other j hj).2 e).2.1]; exact tg j e
+    · by_cases hj : j = i
+      · rcases bs j e with h | h
+        · right; rw [h, hj, td.bspecs]
+        · exact Or.inr h
+      · rw [← ((td.other j hj).2 e).2.2]; exact bs j e
     · rcases List.mem_cons.1 hk with rfl | hk
-      · refine ⟨?_, fun e => ⟨?_, ?_⟩, fun n hn => sub_none sb (td.cache n hn)⟩
+      · refine ⟨?_, fun e => ⟨?_, ?_, ?_⟩, fun n hn => sub_none sb (td.cache n hn)⟩
         · cases h : (mrun u (mrun u s (teardown k es s)) (teardownAll u es rest (mrun u s (teardown k es s)))).dyn.loaded k with
           | false => rfl
           | true => have := lo k h; rw [td.loaded] at this; cases this
@@ -378,16 +464,20 @@ theorem teardownAll_spec (es : List Int) : ∀ (order : List Nat) (s : MState), 
         · rcases tg k e with h | h
           · rw [h, td.tgts]
           · exact h
+        · rcases bs k e with h | h
+          · rw [h, td.bspecs]
+          · exact h
       · exact emp k hk
 
 /-- **(2)** After tearing down every item of the configuration (in any order, repetitions allowed) the
-registers hold nothing for the configured items and the cache holds nothing for them. -/
+registers hold nothing for the configured items (flags, recorded targets, registered warfare-buff modifiers)
+and the cache holds nothing for them. -/
 theorem teardownAll_empty (es : List Int) (order : List Nat) (s : MState) (hc : ∀ j, Covers s.dyn j es)
     (hall : ∀ x ∈ s.cfg.items, x.id ∈ order) :
     (mrun u s (teardownAll u es order s)).cfg = s.cfg ∧
     DynEmptyOn s.cfg (mrun u s (teardownAll u es order s)).dyn ∧
     ∀ x ∈ s.cfg.items, ∀ a, (mrun u s (teardownAll u es order s)).cache (x.id, a) = none := by
-  obtain ⟨c, _, _, _, _, emp⟩ := teardownAll_spec (u := u) es order s hc
+  obtain ⟨c, _, _, _, _, _, emp⟩ := teardownAll_spec (u := u) es order s hc
   exact ⟨c, fun x hx => ⟨(emp _ (hall x hx)).1, (emp _ (hall x hx)).2.1⟩,
     fun x hx a => (emp _ (hall x hx)).2.2 (x.id, a) rfl⟩
 
@@ -416,12 +506,12 @@ theorem teardownAll_stepOK (W : Config × Dyn → Graph Node Rat) (es : List Int
     · refine ih (i :: done) _ d0 (covers_of_tornDown td hc) (fun j e => ?_) (fun j hj e => ?_) hk.2
       · by_cases hj : j = i
         · right; rw [hj]; exact td.tgts e
-        · rw [((td.other j hj).2 e).2]; exact htg j e
+        · rw [((td.other j hj).2 e).2.1]; exact htg j e
       · by_cases hji : j = i
         · rw [hji]; exact td.tgts e
         · rcases List.mem_cons.1 hj with h | h
           · exact absurd h hji
-          · rw [((td.other j hji).2 e).2]; exact hdone j h e
+          · rw [((td.other j hji).2 e).2.1]; exact hdone j h e
 
 /-! ## What an empty dynamic state means for the derived registers -/
 
@@ -442,7 +532,7 @@ theorem projSpecs_empty (h : DynEmptyOn cfg d) {x : Item} (hx : x ∈ cfg.items)
 
 theorem targetsOf_empty (h : DynEmptyOn cfg d) {x : Item} (hx : x ∈ cfg.items) (e : Effect) :
     targetsOf cfg d x e = [] := by
-  unfold targetsOf; rw [((h x hx).2 e.id).2]; rfl
+  unfold targetsOf; rw [((h x hx).2 e.id).2.1]; rfl
 
 theorem allSpecs_empty (h : DynEmptyOn cfg d) : allSpecs u cfg d = [] := by
   unfold allSpecs
